@@ -10,13 +10,17 @@ import (
 )
 
 func verifC10DistConfig() types.Params {
+	return verifC10DistConfigN(2)
+}
+
+func verifC10DistConfigN(maxSrc int) types.Params {
 	var subs []types.SubDistributor
 	nsub := 1
 	if verif_tier() > 0 {
 		nsub = verif_choice("nsub", 2) + 1
 	}
 	for i := 0; i < nsub; i++ {
-		sd := verifSub(i, verif_choice("nsrc"+string(rune('1'+i)), 2)+1, verif_choice("withShare"+string(rune('1'+i)), 2) == 1)
+		sd := verifSub(i, verif_choice("nsrc"+string(rune('1'+i)), maxSrc)+1, verif_choice("withShare"+string(rune('1'+i)), 2) == 1)
 		verif_assume(sd.Validate() == nil)
 		subs = append(subs, sd)
 	}
@@ -75,10 +79,20 @@ func Verif_C10_distributor_begin_block() {
 		verif_fail("SetParams rejects parameters that Validate accepted")
 	}
 	verifC10DistBooks(k, ctx, p)
-	W.bank.faults = true // persistent or sporadic transfer failures
-	BeginBlocker(ctx, k)
-	W.bank.faults = false
-	BeginBlocker(ctx, k) // and the block after
+	// persistent or sporadic transfer failures: quick = every bank call of the block fails or every call succeeds (chosen per path),
+	// thorough = an independent symbolic flag per call
+	if verif_tier() > 0 {
+		W.bank.faults = true
+		BeginBlocker(ctx, k)
+		W.bank.faults = false
+	} else {
+		W.bank.failAll = verif_choice("allBankCallsFail", 2) == 1
+		BeginBlocker(ctx, k)
+		W.bank.failAll = false
+	}
+	if verif_tier() > 0 {
+		BeginBlocker(ctx, k) // and the block after
+	}
 	verif_reach("blocks processed")
 }
 
@@ -86,12 +100,19 @@ func Verif_C10_distributor_begin_block() {
 func Verif_C10_distributor_export_import() {
 	k := verifDistKeeper()
 	ctx := verifCtx(verif_time_range("now", 1600000000, 1900000000))
-	p := verifC10DistConfig()
+	maxSrc := 1
+	if verif_tier() > 0 {
+		maxSrc = 2
+	}
+	p := verifC10DistConfigN(maxSrc)
 	if err := k.SetParams(ctx, p); err != nil {
 		verif_fail("SetParams rejects parameters that Validate accepted")
 	}
 	verifC10DistBooks(k, ctx, p)
-	BeginBlocker(ctx, k) // a block has run: the states (incl. the burn state) have the shape the running code writes
+	// (the books above have the shape the running code writes: the burn state carries an empty, non-nil account)
+	if verif_tier() > 0 {
+		BeginBlocker(ctx, k)
+	}
 	exp := ExportGenesis(ctx, k)
 	verif_assert(exp.Validate() == nil, "an exported genesis passes validation")
 	main := verifMainBal(dDenom)
